@@ -28,6 +28,7 @@ type wsEnv struct {
 	ctlFrames            int      // close / ping frames
 	writeN               int      // number of WriteMessage calls so far
 	failWrite            int      // the k-th WriteMessage fails (0 = never)
+	writers              int      // goroutines currently inside conn.WriteMessage
 	failCtl              bool     // every control-frame (close / ping) write fails: the transport is broken for writing when the local close starts
 	failedCtl            int      // control-frame writes that failed
 	failedData           int      // data-frame writes that failed by injection
@@ -73,6 +74,16 @@ func vReadMessage(c *websocket.Conn) (int, []byte, error) {
 }
 
 func vWriteMessage(c *websocket.Conn, messageType int, data []byte) error {
+	// gorilla allows one concurrent writer only (it panics with "concurrent write to websocket connection"): a write
+	// takes time, another goroutine entering meanwhile is the library's fault
+	env.writers++
+	if env.writers > 1 {
+		env.writers--
+		zzvrt.Fail("C12.concurrent-write-to-the-websocket-connection")
+		return errors.New("concurrent write")
+	}
+	zzvrt.Yield()
+	env.writers--
 	env.writeN++
 	if env.connClosed {
 		return errors.New("use of closed network connection")
